@@ -2312,6 +2312,11 @@ func (m *message) encode(op *operation) error {
 		op.bufferPool.Put(buf)
 		return err
 	}
+	if limit := op.messageLimit(); int64(len(data)) > limit {
+		// the re-encoded form counts against the limit, too
+		op.bufferPool.Put(buf)
+		return bufferLimitError(limit)
+	}
 	op.bufferPool.Put(m.buf)
 	m.buf = op.bufferPool.Wrap(data, buf)
 	return nil
